@@ -49,8 +49,8 @@ UNQUOTED = PRE + [
     ('ensures', '[C18] the content is not trimmed unless a trim option is on', '(self->trim_leading_ || self->trim_trailing_) || vx_trims == 0'),
 ]
 # ---- start of a record (state expect_record): which character begins a record, and that the field delimiter - whatever character it is (other than the quote character) - is left for the field level
-RPRE = [('requires', 'self->input_ptr_ == vx_in + vx_off && vx_off < vx_n && vx_n <= 100000000 && self->more_ && *ec_p == 0 && self->column_ <= SIZE_MAX / 2 && self->line_ <= SIZE_MAX / 2 && vx_buflen == 0 && vx_pushes == 0 && vx_clears == 0 && vx_begin_records == 0 && vx_state_pushes == 0 && self->state_ == csv_parse_state_expect_record'),
-        ('assigns', '*ec_p, self->state_, self->more_, self->input_ptr_, self->column_, self->line_, vx_buflen, vx_pushes, vx_clears, vx_pushed, vx_begin_records, vx_state_pushes')]
+RPRE = [('requires', 'self->input_ptr_ == vx_in + vx_off && vx_off < vx_n && vx_n <= 100000000 && self->more_ && *ec_p == 0 && self->column_ <= SIZE_MAX / 2 && self->line_ <= SIZE_MAX / 2 && vx_buflen == 0 && vx_pushes == 0 && vx_clears == 0 && vx_begin_records == 0 && vx_state_pushes == 0 && self->state_ == csv_parse_state_expect_record && vx_header_line_offset <= SIZE_MAX / 2'),
+        ('assigns', '*ec_p, self->state_, self->more_, self->input_ptr_, self->column_, self->line_, vx_buflen, vx_pushes, vx_clears, vx_pushed, vx_begin_records, vx_state_pushes, vx_header_line_offset')]
 EXPECT_RECORD = RPRE + [
     ('ensures', '[C18] the field delimiter at the start of a record - a comma, a semicolon, and equally a tab or a space when that is the delimiter in force - begins the record and is left for the field level, which makes the first field empty (F36: tab separated values)',
      '(%s == %s && %s != \'\\n\' && %s != \'\\r\' && %s != %s) ==> (vx_begin_records == 1 && self->state_ == csv_parse_state_unquoted_string && %s == vx_off && vx_pushes == 0 && vx_buflen == 0 && *ec_p == 0)' % (C, D, C, C, D, Q, PO)),
@@ -60,7 +60,7 @@ EXPECT_RECORD = RPRE + [
      '(%s != \'\\n\' && %s != \'\\r\' && %s != \' \' && %s != \'\\t\') ==> (vx_begin_records == 1 && vx_pushes == 0 && (%s == %s ? (self->state_ == csv_parse_state_quoted_string && %s == vx_off + 1) : (self->state_ == csv_parse_state_unquoted_string && %s == vx_off)))' % (C, C, C, C, C, Q, PO, PO)),
     ('ensures', '[C18] an empty line is skipped, or - when empty lines are not ignored - is a record without fields', '(%s == \'\\n\' || %s == \'\\r\') ==> (vx_pushes == 0 && (self->ignore_empty_lines_ ? vx_begin_records == 0 : (vx_begin_records == 1 && self->state_ == csv_parse_state_end_record && %s == vx_off)))' % (C, C, PO)),
 ]
-R_RULES = RULES[:2] + [(r'buffer_\.push_back\(static_cast<CharT>\(curr_char\)\);', 'vx_buf_push(curr_char);', 1, 2), (r'buffer_\.clear\(\);', 'vx_buf_clear();', 0, 2), (r'begin_record\(local_visitor, ec\);', 'vx_begin_record(ec_p);', 3, 8), (r'push_state\(state_\);', 'vx_state_pushes++;', 0, 3)]
+R_RULES = RULES[:2] + [(r'stack_\.back\(\) == csv_mode::header', 'vx_mode_header', 0, 2), (r'buffer_\.push_back\(static_cast<CharT>\(curr_char\)\);', 'vx_buf_push(curr_char);', 1, 2), (r'buffer_\.clear\(\);', 'vx_buf_clear();', 0, 2), (r'begin_record\(local_visitor, ec\);', 'vx_begin_record(ec_p);', 3, 8), (r'push_state\(state_\);', 'vx_state_pushes++;', 0, 3)]
 SIG = r'void parse_some\(basic_json_visitor<CharT>& visitor, std::error_code& ec\)'
 SPECS = [
     EnumSpec('csv_parse_state', P), EnumSpec('csv_errc', 'include/jsoncons_ext/csv/csv_error.hpp'),
@@ -71,7 +71,7 @@ SPECS = [
              slice_from=r'case csv_parse_state::unquoted_string:\s*\{\s*switch \(curr_char\)', slice_to=r'case csv_parse_state::expect_record:',
              prologue='char curr_char = *input_ptr_; switch (state_) {', epilogue='default: break; }'),
 ]
-SPECS.append(FuncSpec('expect_record', P, SIG, count=1, csig='void expect_record(struct csv_parser* self, int* ec_p)', contract=EXPECT_RECORD, rules=R_RULES, aliases=dict(AL, line_='(self->line_)', ignore_empty_lines_='(self->ignore_empty_lines_)'),
+SPECS.append(FuncSpec('expect_record', P, SIG, count=1, csig='void expect_record(struct csv_parser* self, int* ec_p)', contract=EXPECT_RECORD, rules=R_RULES, aliases=dict(AL, line_='(self->line_)', ignore_empty_lines_='(self->ignore_empty_lines_)', header_line_offset_='vx_header_line_offset'),
              slice_from=r'case csv_parse_state::expect_record:\s*\{\s*switch \(curr_char\)', slice_to=r'case csv_parse_state::end_record:',
              prologue='char curr_char = *input_ptr_; switch (state_) {', epilogue='default: break; }'))
 # ---- end of input (the switch that runs when the input is exhausted): inside a quoted field the closing quote is missing -> unexpected_eof (F41: the state fell into the
@@ -82,7 +82,9 @@ EOF_C = [
     ('ensures', '[C05][C18] the input ends inside a quoted field (no closing quote): unexpected_eof, the parser stops; it is never treated as the end of a record',
      '__CPROVER_old(self->state_) == csv_parse_state_quoted_string ==> (*ec_p == csv_errc_unexpected_eof && !self->more_ && !vx_default_arm && vx_before_values == 0)'),
     ('ensures', '[C05][C18] the input ends after the closing quote of the last field and some blanks (F50): the field is complete - it is delivered like a field that is followed by a line break; never the default arm',
-     '__CPROVER_old(self->state_) == csv_parse_state_between_values ==> (!vx_default_arm && ((self->ignore_empty_values_ && __CPROVER_old(vx_buflen) == 0) ? (vx_before_values == 0 && self->state_ == (vx_mode_subfields ? csv_parse_state_before_last_unquoted_field_tail : csv_parse_state_end_record)) : (vx_before_values == 1 && (*ec_p == 0 ==> self->state_ == csv_parse_state_before_last_quoted_field))))'),
+     '__CPROVER_old(self->state_) == csv_parse_state_between_values ==> (!vx_default_arm && ((self->ignore_empty_values_ && __CPROVER_old(vx_buflen) == 0) ? (vx_before_values == 0 && self->state_ == csv_parse_state_before_last_unquoted_field_tail) : (vx_before_values == 1 && (*ec_p == 0 ==> self->state_ == csv_parse_state_before_last_quoted_field))))'),
+    ('ensures', '[C05] at the end of the input the record that has been begun is always ended: no state goes straight to end_record without the field having been counted (F53: a record whose only value was an ignored empty quoted field was never ended, json_decoder failed an internal assertion)',
+     '(__CPROVER_old(self->state_) == csv_parse_state_between_values || __CPROVER_old(self->state_) == csv_parse_state_escaped_value) ==> (self->state_ == csv_parse_state_end_record ==> vx_column_index > __CPROVER_old(vx_column_index))'),
     ('ensures', '[C18] the input ends right after the closing quote of the last field: the field is delivered and the record ends', '__CPROVER_old(self->state_) == csv_parse_state_before_last_quoted_field ==> (vx_end_quoted == 1 && self->state_ == csv_parse_state_end_record && *ec_p == 0)'),
 ]
 SPECS.append(FuncSpec('eof_quoted', P, SIG, count=1, csig='void eof_quoted(struct csv_parser* self, int* ec_p)', contract=EOF_C, aliases=dict(AL, column_index_='vx_column_index'),
